@@ -444,9 +444,83 @@ def r06_7(ctx):
     return r
 
 
+def r06_8(ctx):
+    r = Rule("R06.8", "a helper / import is requested only where its identifier is emitted: the result of every registering call is used on every path that follows",
+             "an identifier requested and then dropped on some path leaves an unused import / helper declaration in the output")
+    from ..cfg import calls, callee_name, place_of
+    regs = {}
+    for role in ("import_fn", "slot_helper_fn", "slot_ident_fn"):
+        b = C.role(ctx, role)
+        if b is not None:
+            regs[b["path"]] = role
+    n = 0
+    for mb in ctx.facts.mir:
+        if mb["crate"] != VISITOR_CRATE or mb.get("mac"):
+            continue
+        sites = [(i, t) for i, t in calls(mb) if callee_name(t) in regs and t.get("target") is not None]
+        if not sites:
+            continue
+        r.saw(mb["path"])
+        g = C.cfg_of(ctx, mb)
+        for i, t in sites:
+            n += 1
+            d = t["dest"]["l"]
+            # blocks that read the result (a drop / storage marker is not a use)
+            users = set()
+            holders = {d}
+            changed = True
+            while changed:
+                changed = False
+                for blk in mb["blocks"]:
+                    if blk.get("cleanup"):
+                        continue
+                    for st in blk["stmts"]:
+                        if st["k"] != "assign":
+                            continue
+                        reads = {p["l"] for p in _places_in(st["rv"])}
+                        if reads & holders:
+                            # a plain move / copy / borrow into another local keeps holding the value; anything else consumes it
+                            if st["rv"].get("rk") in ("use", "ref") and not st["lhs"].get("p"):
+                                if st["lhs"]["l"] not in holders:
+                                    holders.add(st["lhs"]["l"])
+                                    changed = True
+                            else:
+                                users.add(blk["i"])
+                    tt = blk.get("term") or {}
+                    if tt.get("k") == "call" and {p["l"] for p in _places_in(tt["args"])} & holders:
+                        if callee_name(tt).endswith("::clone") and tt["dest"]["l"] not in holders:
+                            holders.add(tt["dest"]["l"])
+                            changed = True
+                        elif not callee_name(tt).endswith("::clone"):
+                            users.add(blk["i"])
+                    if tt.get("k") == "return" and 0 in holders:
+                        users.add(blk["i"])
+            ok = bool(users) and g.must_pass(users, start=t["target"])
+            esc = None if ok else g.escaping_exit(users, start=t["target"])
+            key = "%s: result of %s is used on every path" % (mb["path"], regs[callee_name(t)])
+            c = sum(1 for o in r.obs if o["key"].startswith(key))
+            r.ob(key if not c else "%s #%d" % (key, c + 1), ok, C.mloc(mb, t),
+                 "used in bb%s on every path from the call" % sorted(users) if ok else
+                 "a path from the call reaches the end of the function (bb%s) without using the identifier: the import / helper is registered but not referenced" % esc)
+    r.ob("registering calls examined", n > 0, "-", "%d call(s) of %s" % (n, sorted(regs.values())))
+    return r
+
+
+def _places_in(o):
+    if isinstance(o, dict):
+        if "l" in o and "s" in o:
+            yield o
+            return
+        for v in o.values():
+            yield from _places_in(v)
+    elif isinstance(o, list):
+        for v in o:
+            yield from _places_in(v)
+
+
 def rules(ctx):
     from . import c15
-    return [r06_1, r06_2, r06_3, r06_5, r06_6, r06_7, c15.r15_2]
+    return [r06_1, r06_2, r06_3, r06_5, r06_6, r06_7, r06_8, c15.r15_2]
 
 
 EXPLANATION = (
